@@ -57,9 +57,22 @@ def _is_type_checking_if(n):
     return isinstance(n, ast.If) and "TYPE_CHECKING" in ast.unparse(n.test)
 
 
+_OWN_CACHE: dict = {}
+
+
 def own_nodes(fnode):
-    """all nodes of a function body, not descending into nested def/class (lambdas and
-    comprehensions are part of the function)."""
+    """all nodes of a function body (or of any statement), not descending into nested def/class
+    (lambdas and comprehensions are part of the function).  Cached per node object."""
+    k = id(fnode)
+    hit = _OWN_CACHE.get(k)
+    if hit is not None and hit[0] is fnode:
+        return hit[1]
+    lst = list(_own_nodes_gen(fnode))
+    _OWN_CACHE[k] = (fnode, lst)
+    return lst
+
+
+def _own_nodes_gen(fnode):
     stack = list(reversed(list(ast.iter_child_nodes(fnode))))
     while stack:
         n = stack.pop()
@@ -116,12 +129,34 @@ class CallGraph:
         self._attr_types: dict[tuple, object] = {}
         self._local_types: dict[tuple, object] = {}
         self._callsites: dict[str, list] | None = None
+        self._assign_index: dict[int, dict] = {}
+        self._resolve_cache: dict[tuple, tuple] = {}
+        self._binds_cache: dict[int, tuple] = {}
+        self._type_cache: dict[tuple, tuple] = {}
         self._func_of_node: dict[int, Func] = {}
         for m in repo.modules.values():
             for c in m.classes.values():
                 self.classes.append(c)
             for f in list(m.functions.values()):
                 self._add(f)
+        # property getters shadowed by their setters (model.Cls.methods keeps the last def of a name)
+        self._getters: dict[tuple, Func] = {}
+        for c in self.classes:
+            seen_idx = {}
+            for n in c.node.body:
+                if isinstance(n, (ast.FunctionDef, ast.AsyncFunctionDef)):
+                    if is_property(n):
+                        cur = c.methods.get(n.name)
+                        if cur is not None and cur.node is n:
+                            self._getters[(id(c), n.name)] = cur
+                        else:
+                            seen_idx[n.name] = seen_idx.get(n.name, 0) + 1
+                            g = Func(c.module, "%s.%s" % (c.name, n.name), n, c)
+                            self.funcs[(g.file, g.qualname + "#getter")] = g
+                            self._func_of_node[id(n)] = g
+                            self.by_name.setdefault(n.name, []).append(g)
+                            self.props.setdefault(n.name, []).append(g)
+                            self._getters[(id(c), n.name)] = g
         for c in self.classes:
             for b in c.mro()[1:]:
                 self._subs.setdefault(id(b), []).append(c)
@@ -169,6 +204,16 @@ class CallGraph:
             ps = g.params()
             if ps:
                 return ps[0]
+        return None
+
+    def getter(self, c: Cls, name):
+        """the @property getter `name` of class c (through the MRO), or None"""
+        for k in c.mro():
+            g = self._getters.get((id(k), name))
+            if g is not None:
+                return g
+            if name in k.methods or name in k.attrs:
+                return None
         return None
 
     def subclasses(self, c: Cls):
@@ -294,6 +339,22 @@ class CallGraph:
 
     def _assignments_to_name(self, f: Func, name):
         """rhs expressions assigned to local `name` in f (None for non-simple bindings)"""
+        k = id(f.node)
+        idx = self._assign_index.get(k)
+        if idx is None:
+            idx = {}
+            names = set()
+            for n in own_nodes(f.node):
+                if isinstance(n, ast.Name) and isinstance(n.ctx, ast.Store):
+                    names.add(n.id)
+                elif isinstance(n, ast.ExceptHandler) and n.name:
+                    names.add(n.name)
+            for nm in names:
+                idx[nm] = self._assignments_to_name_scan(f, nm)
+            self._assign_index[k] = idx
+        return idx.get(name, [])
+
+    def _assignments_to_name_scan(self, f: Func, name):
         out = []
         for n in own_nodes(f.node):
             if isinstance(n, ast.Assign):
@@ -322,6 +383,17 @@ class CallGraph:
 
     def type_of(self, e, f: Func, depth=0):
         """-> Cls | EXTERNAL | None (unknown)"""
+        if depth == 0:
+            ck = (id(e), id(f.node))
+            hit = self._type_cache.get(ck)
+            if hit is not None and hit[0] is e:
+                return hit[1]
+            t = self._type_of(e, f, 0)
+            self._type_cache[ck] = (e, t)
+            return t
+        return self._type_of(e, f, depth)
+
+    def _type_of(self, e, f: Func, depth=0):
         if depth > 6:
             return None
         if isinstance(e, ast.Name):
@@ -378,15 +450,22 @@ class CallGraph:
             return a if a is b else None
         return None
 
+    _BINDS: dict = {}
+
     @staticmethod
     def _binds(stmt, name):
         """does `stmt` (including nested statements, excluding nested defs) bind `name`?"""
-        for n in [stmt] + list(own_nodes(stmt)):
-            if isinstance(n, ast.Name) and n.id == name and isinstance(n.ctx, (ast.Store, ast.Del)):
-                return True
-            if isinstance(n, ast.ExceptHandler) and n.name == name:
-                return True
-        return False
+        hit = CallGraph._BINDS.get(id(stmt))
+        if hit is None or hit[0] is not stmt:
+            names = set()
+            for n in [stmt] + list(own_nodes(stmt)):
+                if isinstance(n, ast.Name) and isinstance(n.ctx, (ast.Store, ast.Del)):
+                    names.add(n.id)
+                elif isinstance(n, ast.ExceptHandler) and n.name:
+                    names.add(n.name)
+            hit = (stmt, names)
+            CallGraph._BINDS[id(stmt)] = hit
+        return name in hit[1]
 
     def dominating_def(self, name_node, f: Func):
         """rhs of the simple assignment `name = rhs` that precedes the use in the same or an
@@ -443,12 +522,22 @@ class CallGraph:
             if p.arg == name:
                 is_param = True
                 types.append(self.ann_type(p.annotation, f.module))
+        if is_param and f.cls is not None and any(ast.unparse(d).endswith(".setter") for d in f.node.decorator_list):
+            # parameter of a property setter: what do the stores `obj.<prop> = rhs` assign?
+            types = [t for t in types if t is not None]
+            for g, st in self.attr_stores(f.name):
+                tgt = st.targets[0]
+                rt = self.type_of(tgt.value, g, depth + 1)
+                if isinstance(rt, Cls) and (rt is f.cls or f.cls in rt.mro()):
+                    types.append(self.type_of(st.value, g, depth + 1))
         assigns = self._assignments_to_name(f, name)
         for rhs in assigns:
             if rhs is None:
                 types.append(None)
             elif isinstance(rhs, tuple):
                 types.append(self.elem_type_of(rhs[1], f, depth + 1))
+            elif isinstance(rhs, ast.Constant) and rhs.value is None:
+                continue
             else:
                 types.append(self.type_of(rhs, f, depth + 1))
         if not types:
@@ -568,6 +657,17 @@ class CallGraph:
         self._attr_types[key] = t
         return t
 
+    def attr_stores(self, attr):
+        """every simple store `<expr>.attr = rhs` in the universe -> [(Func, Assign)]"""
+        if not hasattr(self, "_attr_store_index"):
+            idx = {}
+            for g in self.funcs.values():
+                for n in own_nodes(g.node):
+                    if isinstance(n, ast.Assign) and len(n.targets) == 1 and isinstance(n.targets[0], ast.Attribute):
+                        idx.setdefault(n.targets[0].attr, []).append((g, n))
+            self._attr_store_index = idx
+        return self._attr_store_index.get(attr, [])
+
     def attr_type(self, c: Cls, attr, depth=0):
         key = (id(c), attr)
         if key in self._attr_types:
@@ -583,6 +683,8 @@ class CallGraph:
                     if isinstance(n, ast.Assign):
                         for t in n.targets:
                             if isinstance(t, ast.Attribute) and t.attr == attr and isinstance(t.value, ast.Name) and t.value.id == sn:
+                                if isinstance(n.value, ast.Constant) and n.value.value is None:
+                                    continue  # `self.x = None` placeholder
                                 types.append(self.type_of(n.value, m, depth + 1))
                             elif isinstance(t, (ast.Tuple, ast.List)):
                                 for x in t.elts:
@@ -592,9 +694,16 @@ class CallGraph:
                         types.append(self.ann_type(n.annotation, m.module))
                     elif isinstance(n, ast.AugAssign) and isinstance(n.target, ast.Attribute) and n.target.attr == attr:
                         types.append(None)
-        pm = c.lookup(attr)
-        if pm is not None and is_property(pm.node):
-            types.append(self.ann_type(pm.node.returns, pm.module))
+        pm = self.getter(c, attr)
+        if pm is not None:
+            if pm.node.returns is not None:
+                types.append(self.ann_type(pm.node.returns, pm.module))
+            else:
+                rets = [n for n in own_nodes(pm.node) if isinstance(n, ast.Return) and n.value is not None]
+                for r in rets:
+                    types.append(self.type_of(r.value, pm, depth + 1))
+                if not rets:
+                    types.append(None)
         ca = c.lookup_attr(attr)
         if ca is not None and not (isinstance(ca, ast.Constant) and ca.value is None):
             types.append(self._const_type(ca, c.module))
@@ -806,6 +915,15 @@ class CallGraph:
     def resolve_call(self, call: ast.Call, f: Func):
         """-> (targets: list[Func], kind: str).  kind 'external' = not repository code;
         'unknown' = could not be resolved at all (a call of a computed value)."""
+        ck = (id(call), id(f.node))
+        hit = self._resolve_cache.get(ck)
+        if hit is not None and hit[0] is call:
+            return hit[1]
+        r = self._resolve_call(call, f)
+        self._resolve_cache[ck] = (call, r)
+        return r
+
+    def _resolve_call(self, call: ast.Call, f: Func):
         fn = call.func
         r = self.resolve_callable(fn, f)
         if r is not None:
@@ -892,7 +1010,15 @@ class CallGraph:
             return []
         t = self.type_of(attr_node.value, f)
         if isinstance(t, Cls):
-            return [m for m in self._typed_method(t, attr_node.attr) if is_property(m.node)]
+            out = []
+            g = self.getter(t, attr_node.attr)
+            if g is not None:
+                out.append(g)
+            for sc in self.subclasses(t):
+                g2 = self._getters.get((id(sc), attr_node.attr))
+                if g2 is not None and g2 not in out:
+                    out.append(g2)
+            return out
         if t is EXTERNAL:
             return []
         return self._methods_named(attr_node.attr, f, cands)
@@ -1151,6 +1277,7 @@ class Bounds:
         self._attr = {}
         self._ret = {}
         self._locals_cache = {}
+        self._fold_cache = {}
 
     # ---- constants -----------------------------------------------------------
     def _local_names(self, f: Func):
@@ -1173,6 +1300,14 @@ class Bounds:
         """constant value of `e` inside f, or Unknown.  Locals fold only through a
         structurally dominating single definition; `self.K` folds to a class constant
         that no method ever stores to."""
+        ck = (id(e), id(f.node))
+        if ck in self._fold_cache:
+            return self._fold_cache[ck][1]
+        v = self._fold(e, f)
+        self._fold_cache[ck] = (e, v)  # keep e alive so that id(e) stays unique
+        return v
+
+    def _fold(self, e, f: Func):
         L = {}
         for n in ast.walk(e):
             if isinstance(n, ast.Name) and n.id in self._local_names(f) and n.id not in L:
@@ -1213,9 +1348,8 @@ class Bounds:
                     return n
                 return s2.generic_visit(n)
 
-        import copy
         t = T()
-        e2 = t.visit(copy.deepcopy(e))
+        e2 = t.visit(ast.parse(ast.unparse(e), mode="eval").body)  # fresh copy without parent links
         if not t.ok:
             return None
         if cls.module is not f.module and f.module.resolve_class(cls.name) is not cls:
@@ -1360,6 +1494,16 @@ class Bounds:
                     sl = fmt_slots(fmt)
                     if 0 <= k < len(sl) and sl[k] is not None:
                         return sl[k]
+            if isinstance(v, ast.Name) and subst is None and parent(v) is not None:
+                dd = self.cg.dominating_def(v, f)
+                if isinstance(dd, (ast.ListComp, ast.GeneratorExp)):
+                    return self.eval(dd.elt, f, depth + 1)
+                if isinstance(dd, (ast.List, ast.Tuple)) and dd.elts:
+                    out = None
+                    for x in dd.elts:
+                        bb = self.eval(x, f, depth + 1)
+                        out = bb if out is None else iv_join(out, bb)
+                    return out
             return TOP
         if isinstance(e, ast.Attribute):
             return self._attr_bounds_expr(e, f, depth, subst)
@@ -1543,9 +1687,9 @@ class Bounds:
         return r
 
     def _attr_bounds(self, cls, attr, depth):
-        pm = cls.lookup(attr)
-        if pm is not None and is_property(pm.node):
-            return self._returns_bounds(self.cg._typed_method(cls, attr), depth, recv_cls=cls)
+        pm = self.cg.getter(cls, attr)
+        if pm is not None:
+            return self._returns_bounds([pm], depth, recv_cls=cls)
         stores = self._stores(cls, attr)
         if not stores:
             ca = cls.lookup_attr(attr)
@@ -1629,15 +1773,16 @@ class SState:
     """abstract state: per stream key the position interval relative to the base point and the
     number of anchored checked bytes; `saved` maps expression text -> (key, lo, hi) for values known
     to equal base_position(key) + [lo, hi]."""
-    __slots__ = ("pos", "anch", "saved")
+    __slots__ = ("pos", "anch", "saved", "kend")
 
-    def __init__(self, pos=None, anch=None, saved=None):
+    def __init__(self, pos=None, anch=None, saved=None, kend=None):
         self.pos = pos or {}
         self.anch = anch or {}
         self.saved = saved or {}
+        self.kend = kend or {}   # key -> relative offset up to which bytes are known to exist (a checked read got that far)
 
     def copy(self):
-        return SState(dict(self.pos), dict(self.anch), dict(self.saved))
+        return SState(dict(self.pos), dict(self.anch), dict(self.saved), dict(self.kend))
 
     def p(self, key):
         return self.pos.get(key, ZERO)
@@ -1653,7 +1798,8 @@ class SState:
 
     def _norm(self):
         ks = self.keys()
-        return ({k: self.p(k) for k in ks if self.p(k) != ZERO}, {k: self.a(k) for k in ks if self.a(k)}, self.saved)
+        return ({k: self.p(k) for k in ks if self.p(k) != ZERO}, {k: self.a(k) for k in ks if self.a(k)}, self.saved,
+                {k: v for k, v in self.kend.items() if v != -INF})
 
     def __repr__(self):
         return "S(%s)" % ", ".join("%s:%s/a%d" % (k, iv_str(self.p(k)), self.a(k)) for k in sorted(self.keys()))
@@ -1671,6 +1817,8 @@ def s_join(a, b):
     for n, (k, lo, hi) in a.saved.items():
         if n in b.saved and b.saved[n][0] == k:
             out.saved[n] = (k, min(lo, b.saved[n][1]), max(hi, b.saved[n][2]))
+    for k in set(a.kend) & set(b.kend):
+        out.kend[k] = min(a.kend[k], b.kend[k])
     return out
 
 
@@ -1684,6 +1832,9 @@ def s_widen(old, new):
     for nme, v in old.saved.items():
         if new.saved.get(nme) == v:
             out.saved[nme] = v
+    for k, v in old.kend.items():
+        if new.kend.get(k, -INF) >= v:
+            out.kend[k] = v
     return out
 
 
@@ -1942,11 +2093,13 @@ class StreamAnalysis:
         return all(m.name == "__init__" for m, *_ in self.b._stores(cls, attr))
 
     # ------------------------------------------------------------------ loop bodies
-    def loop_effect(self, f: Func, loop):
+    def loop_effect(self, f: Func, loop, counters=None, collections=None):
         """abstract effect of ONE iteration of `loop` (ast.While / ast.For / comprehension parent):
         -> (state at the back edge or None if the body never reaches it, run object).  Base point:
         the loop head (position when the test / next() is evaluated)."""
         run = _Run(self, f)
+        run.counters = dict(counters or {})
+        run.collections = set(collections or ())
         st = SState()
         if isinstance(loop, ast.While):
             st = run.expr(loop.test, st)
@@ -1985,6 +2138,11 @@ class _Run:
         self.accs = []          # stack of [state] accumulators (try bodies)
         self.seek_events = 0
         self.seen_states = {}   # id(node) -> joined state before the node (on demand via sa.hooks)
+        self.cut = set()        # id(stmt): the path ends here (treated like raise)
+        self.assume_true = set()  # id(test expr): loops/ifs with this test never take the false edge
+        self.skip_calls = set()   # id(call): the call is treated as having no stream effect
+        self.counters = {}      # local name -> True if a guard guarantees name >= 1 at the loop head (shrinking updates allowed)
+        self.collections = set()  # expression texts whose length is tracked as pseudo key '#len:<text>'
 
     # ------------------------------------------------------------------ state updates
     def _setpos(self, st, key, p):
@@ -2007,6 +2165,14 @@ class _Run:
         for k in list(st.keys()):
             if k == text or k.startswith(text + "."):
                 self._setpos(st, k, TOP)
+        for k in list(st.kend):
+            if k == text or k.startswith(text + "."):
+                del st.kend[k]
+        if text in self.counters:
+            self._setpos(st, "#" + text, TOP)
+        for c in self.collections:
+            if c == text or c.startswith(text + ".") or c.startswith(text + "["):
+                self._setpos(st, "#len:" + c, TOP)
 
     # ------------------------------------------------------------------ position values
     def pos_value(self, e, st, subst=None):
@@ -2045,8 +2211,8 @@ class _Run:
                     recv_text = self.sa.key_of(e.value, f)
                     cls = self.cg.type_of(e.value, f)
                 if recv_text is not None and isinstance(cls, Cls):
-                    pm = cls.lookup(e.attr)
-                    if pm is not None and is_property(pm.node):
+                    pm = self.cg.getter(cls, e.attr)
+                    if pm is not None:
                         rets = [n for n in own_nodes(pm.node) if isinstance(n, ast.Return)]
                         sn = self.cg.self_name(pm)
                         if len(rets) == 1 and rets[0].value is not None and sn is not None and len(pm.node.body) <= 2:
@@ -2070,6 +2236,95 @@ class _Run:
         if subst is None:
             return self.b.eval(e, self.f)
         return self.b.eval(e, subst[3], 0, (subst[0], subst[2]))
+
+    def _empty_read_test(self, ifs: ast.If):
+        """`ifs` directly follows `z = S.read(..)` and tests z for emptiness -> (key, True if the true
+        branch is the empty case); the empty branch must leave (raise/return/break/continue are all fine
+        for the caller: the refinement is applied to the non-empty branch only)."""
+        p = parent(ifs)
+        prev = None
+        for fld in ("body", "orelse", "finalbody"):
+            lst = getattr(p, fld, None)
+            if isinstance(lst, list) and any(x is ifs for x in lst):
+                i = [k for k, x in enumerate(lst) if x is ifs][0]
+                if i > 0:
+                    prev = lst[i - 1]
+        if not (isinstance(prev, ast.Assign) and len(prev.targets) == 1 and isinstance(prev.targets[0], ast.Name)):
+            return None
+        rd = self.sa._as_read(prev.value, self.f)
+        if rd is None or rd[2] is None:
+            return None
+        z = prev.targets[0].id
+        n = self.b.eval(rd[1], self.f)
+        if not (n[0] >= 1):
+            return None  # read(0) / read(-1) legitimately return b'' / everything
+        t = ifs.test
+        isz = lambda x: isinstance(x, ast.Name) and x.id == z
+        islen = lambda x: isinstance(x, ast.Call) and isinstance(x.func, ast.Name) and x.func.id == "len" and len(x.args) == 1 and isz(x.args[0])
+        empty_const = lambda x: isinstance(x, ast.Constant) and x.value in (b"", "")
+        if isinstance(t, ast.UnaryOp) and isinstance(t.op, ast.Not) and (isz(t.operand) or islen(t.operand)):
+            return (rd[0], True)
+        if isz(t) or islen(t):
+            return (rd[0], False)
+        if isinstance(t, ast.Compare) and len(t.ops) == 1:
+            l, r, op = t.left, t.comparators[0], t.ops[0]
+            if islen(l) and isinstance(r, ast.Constant) and isinstance(r.value, int):
+                if (isinstance(op, ast.Eq) and r.value == 0) or (isinstance(op, ast.Lt) and r.value == 1) or (isinstance(op, ast.LtE) and r.value == 0):
+                    return (rd[0], True)
+                if (isinstance(op, ast.NotEq) and r.value == 0) or (isinstance(op, ast.Gt) and r.value == 0) or (isinstance(op, ast.GtE) and r.value == 1):
+                    return (rd[0], False)
+            if isz(l) and empty_const(r):
+                if isinstance(op, ast.Eq):
+                    return (rd[0], True)
+                if isinstance(op, ast.NotEq):
+                    return (rd[0], False)
+        return None
+
+    def _counter_delta(self, name, value):
+        """value assigned to counter `name`, as a delta interval relative to its old value (None: unknown)"""
+        isv = lambda x: isinstance(x, ast.Name) and x.id == name
+        if isinstance(value, ast.BinOp):
+            if isinstance(value.op, ast.Add):
+                if isv(value.left):
+                    return self._int(value.right)
+                if isv(value.right):
+                    return self._int(value.left)
+            if isinstance(value.op, ast.Sub) and isv(value.left):
+                return iv_neg(self._int(value.right))
+            if isinstance(value.op, (ast.RShift, ast.FloorDiv)) and isv(value.left) and self.counters.get(name):
+                k = self._int(value.right)
+                need = 1 if isinstance(value.op, ast.RShift) else 2
+                if k[0] >= need:
+                    return (-INF, -1)
+        if isinstance(value, ast.Subscript) and isv(value.value) and isinstance(value.slice, ast.Slice) and self.counters.get(name):
+            # v = v[k:]  -- the length shrinks by k (guard: v is non-empty)
+            sl = value.slice
+            if sl.upper is None and sl.step is None and sl.lower is not None:
+                k = self._int(sl.lower)
+                if k[0] >= 1:
+                    return (-INF, -1)
+        return None
+
+    GROW = ("append", "extend", "insert", "add", "update", "setdefault", "appendleft", "extendleft", "push")
+    SHRINK1 = ("pop", "popitem", "popleft", "remove")
+
+    def _collection_call(self, e: ast.Call, st):
+        fn = e.func
+        if not (isinstance(fn, ast.Attribute) and self.collections):
+            return st
+        d = ast.unparse(fn.value)
+        if d in self.collections:
+            k = "#len:" + d
+            if fn.attr in self.SHRINK1:
+                self._advance(st, k, (-1, -1))
+            elif fn.attr in self.GROW or fn.attr in ("clear", "discard", "sort", "reverse", "__setitem__", "__delitem__"):
+                if fn.attr in ("sort", "reverse"):
+                    pass
+                elif fn.attr in ("clear", "discard"):
+                    self._advance(st, k, (-INF, 0))
+                else:
+                    self._setpos(st, k, TOP)
+        return st
 
     # ------------------------------------------------------------------ statements
     def block(self, stmts, st) -> Out:
@@ -2096,6 +2351,8 @@ class _Run:
         if hk is not None:
             hk.append(st.copy())
         self._acc(st)
+        if id(s) in self.cut:
+            return Out()
         o = self._stmt(s, st.copy())
         for x in (o.fall, o.brk, o.cont, o.ret):
             self._acc(x)
@@ -2110,6 +2367,12 @@ class _Run:
                 return Out()
             pv = self.pos_value(s.value, st)
             for t in s.targets:
+                if isinstance(t, ast.Name) and t.id in self.counters:
+                    d = self._counter_delta(t.id, s.value)
+                    old_p = st.p("#" + t.id)
+                    st = self._bind(t, s.value, st, pv)
+                    self._setpos(st, "#" + t.id, iv_add(old_p, d) if d is not None else TOP)
+                    continue
                 st = self._bind(t, s.value, st, pv)
             return Out(fall=st)
         if isinstance(s, ast.AnnAssign):
@@ -2124,6 +2387,13 @@ class _Run:
             if st is None:
                 return Out()
             d = dotted(s.target)
+            if isinstance(s.target, ast.Name) and s.target.id in self.counters:
+                fake = ast.BinOp(left=ast.Name(id=s.target.id, ctx=ast.Load()), op=s.op, right=s.value)
+                dl = self._counter_delta(s.target.id, fake)
+                old_p = st.p("#" + s.target.id)
+                self._kill(st, d)
+                self._setpos(st, "#" + s.target.id, iv_add(old_p, dl) if dl is not None else TOP)
+                return Out(fall=st)
             if d is not None:
                 old = st.saved.get(d)
                 self._kill(st, d)
@@ -2139,8 +2409,20 @@ class _Run:
             st = self.expr(s.test, st)
             if st is None:
                 return Out()
-            a = self.block(s.body, st.copy())
-            b = self.block(s.orelse, st.copy()) if s.orelse else Out(fall=st)
+            st_t, st_f = st.copy(), st.copy()
+            er = self._empty_read_test(s)
+            if er is not None:
+                key, when_empty = er
+                ne = st_f if when_empty else st_t   # the branch on which the read returned >= 1 byte
+                p = ne.p(key)
+                if p[0] != -INF:
+                    # position was (before + [0, n]); a non-empty result means at least one byte was consumed,
+                    # and the empty (EOF) case leaves through the other branch: the read is checked
+                    if p[0] >= 0:
+                        ne.anch[key] = ne.a(key) + 1
+                    self._setpos(ne, key, (p[0] + 1, max(p[1], p[0] + 1)))
+            a = self.block(s.body, st_t)
+            b = self.block(s.orelse, st_f) if s.orelse else Out(fall=st_f)
             return Out(s_join(a.fall, b.fall), s_join(a.brk, b.brk), s_join(a.cont, b.cont), s_join(a.ret, b.ret))
         if isinstance(s, ast.While):
             return self._loop(s, st, test=s.test)
@@ -2148,7 +2430,7 @@ class _Run:
             st = self.expr(s.iter, st)
             if st is None:
                 return Out()
-            return self._loop(s, st, target=s.target)
+            return self._loop(s, st, target=s.target, at_least_once=self._nonempty_const_range(s.iter))
         if isinstance(s, ast.Return):
             st = self.expr(s.value, st) if s.value is not None else st
             return Out(ret=st)
@@ -2175,6 +2457,8 @@ class _Run:
                 d = dotted(t)
                 if d:
                     self._kill(st, d)
+                elif isinstance(t, ast.Subscript) and ast.unparse(t.value) in self.collections:
+                    self._advance(st, "#len:" + ast.unparse(t.value), (-INF, -1) if isinstance(t.slice, ast.Slice) else (-1, -1))
             return Out(fall=st)
         if isinstance(s, ast.Match):
             st = self.expr(s.subject, st)
@@ -2196,6 +2480,8 @@ class _Run:
         d = dotted(target)
         if d is None:
             # subscript store etc.: evaluate the pieces
+            if isinstance(target, ast.Subscript) and ast.unparse(target.value) in self.collections:
+                self._setpos(st, "#len:" + ast.unparse(target.value), TOP)  # may add a key
             return self.expr(target, st)
         d = self.sa.key_of(target, self.f) if d in self.sa.aliases(self.f) else d
         self._kill(st, d)
@@ -2216,11 +2502,26 @@ class _Run:
                     pass
         return st
 
-    def _loop(self, s, st, test=None, target=None):
+    def _nonempty_const_range(self, it):
+        if isinstance(it, ast.Call) and isinstance(it.func, ast.Name) and it.func.id == "range" and not it.keywords:
+            v = self.b.fold(it, self.f)
+            return isinstance(v, list) and len(v) >= 1
+        if isinstance(it, (ast.List, ast.Tuple)) and it.elts:
+            return True
+        return False
+
+    def _loop(self, s, st, test=None, target=None, at_least_once=False):
         head = st
-        infinite = test is not None and isinstance(test, ast.Constant) and bool(test.value)
+        infinite = test is not None and ((isinstance(test, ast.Constant) and bool(test.value)) or id(test) in self.assume_true)
         brk = None
         ret = None
+        if at_least_once:
+            t = self._bind(target, None, head.copy(), None) if target is not None else head.copy()
+            o = self.block(s.body, t)
+            brk, ret = o.brk, o.ret
+            head = s_join(o.fall, o.cont)
+            if head is None:
+                return Out(fall=brk, ret=ret)
         for i in range(self.MAX_ITER):
             t = head.copy()
             if test is not None:
@@ -2397,6 +2698,10 @@ class _Run:
     # ------------------------------------------------------------------ calls
     def call(self, e: ast.Call, st):
         f = self.f
+        if id(e) in self.skip_calls:
+            return st
+        if self.collections:
+            st = self._collection_call(e, st)
         cr = self.sa.checked_read(e, f)
         if cr is not None:
             key, n, rcall = cr
@@ -2410,6 +2715,8 @@ class _Run:
                 p = st.p(key)
                 if p[0] >= 0:
                     st.anch[key] = st.a(key) + n
+                if p[0] != -INF:
+                    st.kend[key] = max(st.kend.get(key, -INF), p[0] + n)
                 self._advance(st, key, (n, n))
                 return st
             # `x = S.read(n)` in the immediately preceding statement, then unpack(fmt, x)
@@ -2488,11 +2795,15 @@ class _Run:
             return st
         if meth == "read":
             hi = INF
+            lo = 0
             if e.args:
                 b = self.b.eval(e.args[0], self.f)
                 if b[0] >= 0 and b[1] < INF:
                     hi = b[1]
-            self._advance(st, key, (0, hi))
+                    p = st.p(key)
+                    if b[0] == b[1] and p[1] + b[1] <= st.kend.get(key, -INF):
+                        lo = b[0]   # the bytes are known to exist: a checked read already got past them
+            self._advance(st, key, (lo, hi))
             return st
         # seek
         self.has_seek = True
